@@ -57,3 +57,118 @@ CHECKS["C20"] = dict(
     level_note="trusts memcpy-based byte reversal and the run-time endianness probe; 64-bit types are sampled, not enumerated",
     assumptions=["UBSan shift-base is disabled for this engine: HostEndian<signed T> left-shifts promoted signed values, formally UB in C++14 but not what C20 states; C20 is decided by the value oracle"],
 )
+
+
+# ------------------------------------------------------------------ codec engine (C01-C06, C10, C11)
+def gen_codec(prop, tier, seed):
+    import typegen
+    s = seed if tier == "thorough" else 0
+    d = os.path.join(BUILD, "gen", "codec-%s-%d" % (tier, s))
+    srcs = typegen.generate(d, tier, s)
+    return d, srcs
+
+
+ENGINE_KIND["codec"] = ("C++ harness (ASan+UBSan): generated type corpus with independent reflection, reference codec written from docs/format.md, "
+                        "instrumented readers/writers, allocation meter; every shipped reader/writer kind instantiated per type")
+_codec = dict(engine="codec", flavour="asan", gen=gen_codec, sources=["engines/codec/main.cpp"], programs_counter=None)
+
+_CORPUS = ("type corpus = curated types (every scalar, enums, strings, BIN/ARY sequences, maps, pair/tuple, reference_wrapper, Optional/Result/Variant, "
+           "Handle, structures incl. logical buffers with every size-member shape, value wrappers, tables incl. nested/deleted/handle entries, depth-3 nestings) "
+           "+ grammar-generated types (quick: fixed set; thorough: VERIF_SEED-dependent, 120 more); values are boundary-biased per schema. ")
+
+
+def _codec_check(pid, level, rule, floor, require, level_text, level_note, technique, assumptions=(), **kw):
+    d = dict(_codec)
+    d.update(level=level, rule=_CORPUS + rule, floor=floor, require_counters=require, level_text=level_text, level_note=level_note,
+             technique=technique, assumptions=list(assumptions))
+    d.update(kw)
+    CHECKS[pid] = d
+
+
+_codec_check(
+    "C01", "exploration",
+    "case = (type, sequence of 1..5 generated values): written with every applicable writer kind (Log, Buffer, Pedantic, Constexpr, Stream, Fd over memfd/pipe, "
+    "Bounded over each; all must emit identical bytes) and read back with every applicable reader kind (Log, Buffer, Pedantic, Stream over stringstream and over a "
+    "non-seekable chunked streambuf, Fd over memfd/pipe, Bounded over each, plus FdReader on a pipe fed concurrently in 1..7-byte chunks); oracle = value equality on the "
+    "dynamic value tree (floats by bit pattern), reader position after every value = bytes the writer had produced, trailing sentinel reads back. Oversize logical "
+    "buffers must be rejected by Write without UB. distinct = hash(type, bytes); non-trivial = encoding of 2+ bytes.",
+    {"quick": 3000, "thorough": 30000}, ["c01_values", "c01_sequences", "c01_reader_FdReader", "c01_reader_BoundedReader<Chunked>", "c01_writer_ConstexprBufferWriter", "c01_oversize_logical_buffer_writes"],
+    "exploration: 10^4-10^5 generated (type, value-sequence) cases, each decided exactly (value tree equality, exact consumed length) on every shipped writer x reader kind, with ASan/UBSan watching the same executions. Types, values and pairings are unbounded sets; sampling with exact per-case oracles is the level this technique reaches.",
+    "trusts the independent reflection (vlib/reflect.h + generated Reflect specialisations) to read/write C++ objects faithfully; pairings are exercised per kind through identical bytes rather than as a literal cross product",
+    "runtime round-trip oracle on every shipped reader/writer kind under ASan/UBSan, generated type corpus")
+
+_codec_check(
+    "C03", "exploration",
+    "case = (type, value): bytes captured from the writer are compared byte for byte with RefEncode (independent encoder written from docs/format.md); the annotation names the "
+    "first differing field; the same object is written twice. Integer types additionally: all 8/16-bit values exhaustively, +-2 around every class boundary, 2^14/2^20 random "
+    "32/64-bit values; containers up to 70000 elements cross the U8/U16/U32 length-class boundaries. distinct = hash(type, bytes) + enumerated integers.",
+    {"quick": 20000, "thorough": 300000}, ["c03_encodings_compared", "c03_dense_int_values", "c03_exhaustive_small_int_values"],
+    "exploration with exhaustive small scopes: every generated (type, value) is decided exactly by byte comparison with an independent encoder; 8- and 16-bit integers are enumerated completely.",
+    "trusts ref/refcodec.h (≈150 lines written from docs/format.md, validated against libnop on 2.7M differential decodes during design) as the statement of the format",
+    "differential byte-for-byte comparison with an independent reference encoder")
+
+_codec_check(
+    "C04", "exploration",
+    "case = (type, byte string) on BufferReader, PedanticBufferReader, BoundedReader<Pedantic>, BoundedReader<Buffer>: byte strings are derived from annotated reference encodings: "
+    "every cut, all 256 prefix bytes at prefix positions, every integer field re-encoded in every class that can hold it (legal wider classes must be accepted, too-wide / "
+    "other-signedness rejected), boundary value substitutions in length/count/id/size/hash/index/tag fields, Val-level single defects (fixed count +-1 with matching payload, "
+    "non-multiple byte lengths, logical buffer above capacity), noise, random strings. Oracle = RefDecode: accept/reject, decoded value, consumed length on every input; "
+    "error category only where the reference's first error sits exactly at the single injected defect. distinct = hash(type, bytes); non-trivial = non-empty input.",
+    {"quick": 50000, "thorough": 1000000}, ["c04_differential_decodes", "c04_accepted_and_value_compared", "c04_single_defect_categories_compared", "c04_inputs_reference_accepts", "c04_inputs_reference_rejects"],
+    "exploration: 10^5-10^7 structure-aware hostile inputs per run, each decided exactly against an independent schema-directed decoder; the input language is infinite so sampling directed by field annotations is the reachable level.",
+    "trusts ref/refcodec.h as the statement of docs/format.md; two documented ambiguities resolved as in DESIGN.md 2.3 (variant index is INT32; duplicate-key maps compared on accept/consumed only)",
+    "differential decoding against an independent reference decoder under ASan/UBSan")
+
+_codec_check(
+    "C02", "exploration",
+    "case = (type, hostile byte string, bounded reader) with the C04 mutation set on BufferReader, PedanticBufferReader, LogReader, BoundedReader over Pedantic/Buffer/Stream/"
+    "chunked Stream/Fd. Monitors: ASan (every input in its own exactly-sized allocation), UBSan, allocation meter with cap 64 KiB + 1024 x input length on any single request "
+    "and on peak live bytes, per-case watchdog; post-conditions after a failed read: inspect the object, read a valid encoding into it and compare with a fresh decode, destroy. "
+    "NOP_UNBOUNDED_BUFFER structures and bool/loose-enum BIN elements excluded as stated. distinct = hash(type, bytes).",
+    {"quick": 50000, "thorough": 1000000}, ["c02_monitored_decodes", "c02_failed_reads_followed_by_reread", "max_peak_alloc_bytes"],
+    "exploration under sanitizers: 10^5-10^7 hostile inputs each executed under ASan/UBSan with an armed allocation cap and a watchdog; memory safety is decided for the executions produced, not for all inputs.",
+    "ASan red zones miss non-adjacent overflows (mitigated by dedicated exact-size allocations); the allocation cap is two orders of magnitude above legitimate use",
+    "ASan/UBSan + allocation meter + watchdog over structure-aware hostile inputs")
+
+_codec_check(
+    "C05", "fault_enumeration",
+    "case = (type, value, cut position k, reader kind, mode): every strict prefix of the encoding (all k for encodings <= 512 bytes, field boundaries +-1 and 64 random k beyond) is fed to "
+    "every reader kind: Buffer, Pedantic, Log, Stream over stringstream and over a non-seekable chunked streambuf, Fd over memfd and over a pipe closed after k bytes, Bounded over each with "
+    "limit beyond the data and with limit = k over the full data; tables are additionally read by a different table version that skips entries (unknown / deleted ids). Oracle: status must be "
+    "an error. distinct = enumerated (value, k, reader, mode) tuples; non-trivial = k > 0.",
+    {"quick": 100000, "thorough": 1000000}, ["c05_cut_reads", "c05_cut_reads_by_other_table_version", "c05_reader_FdReader", "c05_reader_StreamReader<chunked non-seekable>"],
+    "fault enumeration: for each generated encoding every cut position is enumerated on every reader implementation (exhaustive per encoding up to 512 bytes); types and values are sampled.",
+    "fd and stream media are memfd/pipe/stringstream/custom streambuf inside one process",
+    "exhaustive cut-point enumeration per encoding on every shipped reader, under ASan/UBSan",
+    exhaustive_counter=None)
+
+_codec_check(
+    "C06", "exploration",
+    "case = (type, value, capacity c, writer kind, fresh-or-partly-used writer): GetSize vs bytes written (equal for handle-free types), table entry framing parsed by the reference decoder, and every "
+    "capacity 0..GetSize+1 (values <= 300 bytes; selected capacities beyond) on BufferWriter, PedanticBufferWriter, ConstexprBufferWriter, a capacity-checked LogWriter and BoundedWriter over each, "
+    "both into a fresh writer and as the second value after another one: room >= GetSize must succeed with the reference bytes, room < GetSize must return WriteLimitReached and write nothing "
+    "beyond the room (exact-size allocations under ASan). One case drives aggregate sizes >= 2^32 through reference_wrapper aliasing and a counting writer.",
+    {"quick": 100000, "thorough": 1000000}, ["c06_capacity_writes", "c06_second_value_writes", "c06_huge_aggregate_cases", "c06_table_framings_parsed", "c06_writer_BufferWriter"],
+    "exploration with exhaustive capacity sweeps per value: each generated value is written into every capacity from 0 to GetSize+1 on every bounded writer kind; types and values are sampled.",
+    "BufferWriter is unchecked by design: safety is decided by ASan on exactly-sized allocations",
+    "capacity sweep with status/size oracle under ASan on exact-size buffers")
+
+_codec_check(
+    "C10", "fault_enumeration",
+    "case = (type, value, direction, k, error): a counting dry run gives the N primitive calls the operation makes on LogWriter/LogReader (directly and through BoundedWriter/BoundedReader); then "
+    "the k-th call fails with each of ReadLimitReached/WriteLimitReached, StreamError, IOError, ProtocolError, DebugError for every k < N (N capped at 400). Oracle = the call log: returned error == "
+    "injected error, zero calls after the failure, nothing written when Prepare fails; handle resolution errors are returned unchanged.",
+    {"quick": 50000, "thorough": 500000}, ["c10_write_faults", "c10_read_faults", "c10_fault_at_Prepare_w", "c10_fault_at_Ensure_r", "c10_fault_at_Skip_r", "c10_fault_at_PushHandle_w", "c10_fault_at_GetHandle_r"],
+    "fault enumeration: for each generated value every primitive-call index is failed with every error code (exhaustive in k per value); types and values are sampled.",
+    "the instrumented LogReader/LogWriter implement the documented Reader/Writer interface; the RPC sender/receiver anchors are covered by the C14 check",
+    "exhaustive fail-at-k injection through instrumented reader/writer with call-log oracle")
+
+_codec_check(
+    "C11", "exploration",
+    "case = (type, incoming bytes, prior state): incoming = a valid encoding plus mutated/truncated ones; prior states = default, assigned random value, after a successful read of another value, "
+    "residue of a read that failed at a random cut (with and without a prior assignment). Oracle: status and decoded value tree equal to a decode into a fresh object; ASan/LSan report leaks or "
+    "double destruction of element objects. distinct = hash(type, bytes, prior value, prior kind); non-trivial = prior state is not default.",
+    {"quick": 20000, "thorough": 200000}, ["c11_prior_state_decodes", "c11_prior_kind_3", "c11_invalid_incoming"],
+    "exploration: 10^4-10^6 (prior, incoming) pairs per run each decided exactly by comparison with a fresh decode; histories producing the prior state are sampled from four families.",
+    "element lifetimes are monitored by ASan/LSan on the containers' own allocations",
+    "differential decode (prior-state object vs fresh object) under ASan/LSan")
